@@ -462,6 +462,17 @@ func main() {
 		hs.Opt.Horizon = 40 * n
 		hs.Shards = 4
 		scenarios = append(scenarios, hs)
+		if !r.Thorough() {
+			// and, in the quick tier, 1100 events on the default schedule alone
+			vs2 := make([]string, 1100)
+			for i := range vs2 {
+				vs2[i] = "valid"
+			}
+			ds := scenario("long-burst/1100-valid/stop-later/default-schedule", vs2, 3, 1, 0, 1, true)
+			ds.DefaultOnly = true
+			ds.Opt.Horizon = 40 * 1100
+			scenarios = append(scenarios, ds)
+		}
 	}
 	// a second Listen on the same client while the first is winding down with its callback busy
 	for _, at := range []time.Duration{15 * T / 100, 25 * T / 100, 3 * T / 10, 65 * T / 100} {
@@ -484,7 +495,7 @@ func main() {
 	if r.Worker == "" && r.Replay == "" {
 		e1.Conformance(r)
 	}
-	r.Rule(fmt.Sprintf("(a) every datagram-class sequence of length <= %d over %d classes x stop signal after every prefix x 1-2 senders (the two-sender variants use a client built with debug = true) x OnError returning true / false (an environment choice per error), preemption bound 0; (b) every sequence of length <= %d over {valid, v6.62, malformed} x stop after every prefix under ALL interleavings (no preemption bound), and as a burst (datagrams and stop signal in one instant) under ALL interleavings for length 1 (thorough: length <= 2) and with <= %d preemptions beyond; (c) two consecutive Listen runs on the same address under all interleavings, and a second Listen on the same client started (at 4 instants) while the first, stopped with its callback busy, is still winding down; (d) a burst of 300 (thorough 1100) valid events with at most one non-default choice, and 12-event sequences (burst and spaced, valid and mixed) with at most 2 non-default scheduling choices of any kind. distinct = distinct (datagrams read, events, errors) labels", contentLen, len(classes), schedLen, schedBound))
+	r.Rule(fmt.Sprintf("(a) every datagram-class sequence of length <= %d over %d classes x stop signal after every prefix x 1-2 senders (the two-sender variants use a client built with debug = true) x OnError returning true / false (an environment choice per error), preemption bound 0; (b) every sequence of length <= %d over {valid, v6.62, malformed} x stop after every prefix under ALL interleavings (no preemption bound), and as a burst (datagrams and stop signal in one instant) under ALL interleavings for length 1 (thorough: length <= 2) and with <= %d preemptions beyond; (c) two consecutive Listen runs on the same address under all interleavings, and a second Listen on the same client started (at 4 instants) while the first, stopped with its callback busy, is still winding down; (d) a burst of 300 (thorough 1100) valid events with at most one non-default choice (quick: 1100 events on the default schedule as well), and 12-event sequences (burst and spaced, valid and mixed) with at most 2 non-default scheduling choices of any kind. distinct = distinct (datagrams read, events, errors) labels", contentLen, len(classes), schedLen, schedBound))
 	r.Assume("a datagram counts as received when a read on the listen socket returned it (datagrams still queued when the socket is closed were never received)")
 	r.Assume("calendar-invalid (but BCD) timestamps are outside the alphabet: the library documents decoding them as 'no value'")
 	r.Finish()
